@@ -1,0 +1,230 @@
+//go:build verif
+
+// Machine-checked contracts for package linter, part 2 (read by /verif/govc): agreement between the
+// linter's assignment type table and the simulator's assignment (C05).
+//
+// The lemma functions are never executed. verifLintType maps a simulator value to the linter type
+// the linter computes for an expression of that kind.
+
+package linter
+
+import (
+	"github.com/ysugimoto/falco/v2/ast"
+	"github.com/ysugimoto/falco/v2/interpreter/assign"
+	"github.com/ysugimoto/falco/v2/interpreter/value"
+	"github.com/ysugimoto/falco/v2/linter/types"
+)
+
+func verifLintType(v value.Value) types.Type {
+	switch v.(type) {
+	case *value.Integer:
+		return types.IntegerType
+	case *value.Float:
+		return types.FloatType
+	case *value.String:
+		return types.StringType
+	case *value.Boolean:
+		return types.BoolType
+	case *value.RTime:
+		return types.RTimeType
+	case *value.Time:
+		return types.TimeType
+	case *value.IP:
+		return types.IPType
+	case *value.Backend:
+		return types.BackendType
+	case *value.Acl:
+		return types.AclType
+	}
+	return types.NeverType
+}
+
+//@ func verifLintType [C05]
+//@   inline
+
+//@ pred noIgnores(l *Linter) = l != nil && l.ignore != nil && cleanRules(l.ignore.ignoreNextLine) && cleanRules(l.ignore.ignoreThisLine) && cleanRules(l.ignore.ignoreRange)
+//@ pred simValue(v value.Value) = valid(v) && (is(v, *value.Integer) || is(v, *value.Float) || is(v, *value.String) || is(v, *value.Boolean) || is(v, *value.RTime) || is(v, *value.Time) || is(v, *value.IP) || is(v, *value.Backend) || is(v, *value.Acl))
+
+// (no VCL variable has type ACL: the left-hand side of an assignment ranges over the other kinds)
+//@ pred assignable(v value.Value) = simValue(v) && !is(v, *value.Acl)
+
+// (an IP variable set from a STRING literal fails in the simulator when the literal is not an IP address:
+// a value error the type table cannot see; that cell is excluded)
+// `set X = Y`: whatever the linter's assignment table accepts (for variables and for literals),
+// the simulator's Assign executes without a type error.
+// @ lemma lemma_assign_accepted_executes [C05]
+// @   requires noIgnores(l) && op != nil && op.Meta != nil && assignable(left) && simValue(right)
+// @   requires !(is(left, *value.IP) && is(right, *value.String) && right.(*value.String).Literal)
+// @   inline-calls
+// @   paths 20000
+// @   ensures [accepted-assignment-executes] len(l.Errors) == old(len(l.Errors)) ==> err == nil
+func lemma_assign_accepted_executes(l *Linter, op *ast.Operator, name string, left, right value.Value) (err error) {
+	l.lintAssignOperator(op, name, verifLintType(left), verifLintType(right), right.IsLiteral())
+	err = assign.Assign(left, right)
+	return
+}
+
+// `+=`, `-=`: the add/sub table against Addition / Subtraction.
+// @ lemma lemma_addition_accepted_executes [C05]
+// @   requires noIgnores(l) && op != nil && op.Meta != nil && assignable(left) && simValue(right) && op.Operator == "+="
+// @   inline-calls
+// @   paths 20000
+// @   ensures [accepted-addition-executes] len(l.Errors) == old(len(l.Errors)) ==> err == nil
+func lemma_addition_accepted_executes(l *Linter, op *ast.Operator, left, right value.Value) (err error) {
+	l.lintAddSubOperator(op, verifLintType(left), verifLintType(right), right.IsLiteral())
+	err = assign.Addition(left, right)
+	return
+}
+
+// @ lemma lemma_subtraction_accepted_executes [C05]
+// @   requires noIgnores(l) && op != nil && op.Meta != nil && assignable(left) && simValue(right) && op.Operator == "-="
+// @   inline-calls
+// @   paths 20000
+// @   ensures [accepted-subtraction-executes] len(l.Errors) == old(len(l.Errors)) ==> err == nil
+func lemma_subtraction_accepted_executes(l *Linter, op *ast.Operator, left, right value.Value) (err error) {
+	l.lintAddSubOperator(op, verifLintType(left), verifLintType(right), right.IsLiteral())
+	err = assign.Subtraction(left, right)
+	return
+}
+
+// (value errors the type table cannot see are excluded: a zero divisor, a negative shift count)
+// `*=`, `/=`, `%=`: the arithmetic table against Multiplication / Division / Remainder.
+// @ lemma lemma_multiplication_accepted_executes [C05]
+// @   requires noIgnores(l) && op != nil && op.Meta != nil && assignable(left) && simValue(right) && op.Operator == "*="
+// @   inline-calls
+// @   paths 20000
+// @   ensures [accepted-multiplication-executes] len(l.Errors) == old(len(l.Errors)) ==> err == nil
+func lemma_multiplication_accepted_executes(l *Linter, op *ast.Operator, left, right value.Value) (err error) {
+	l.lintArithmeticOperator(op, verifLintType(left), verifLintType(right), right.IsLiteral())
+	err = assign.Multiplication(left, right)
+	return
+}
+
+// @ lemma lemma_division_accepted_executes [C05]
+// @   requires noIgnores(l) && op != nil && op.Meta != nil && assignable(left) && simValue(right) && op.Operator == "/="
+// @   requires !(is(right, *value.Integer) && right.(*value.Integer).Value == 0) && !(is(right, *value.Float) && isZero(right.(*value.Float).Value)) && !(is(right, *value.RTime) && right.(*value.RTime).Value == 0) && !((is(left, *value.Integer) || is(left, *value.RTime)) && is(right, *value.Float) && int64(right.(*value.Float).Value) == 0)
+// @   inline-calls
+// @   paths 20000
+// @   ensures [accepted-division-executes] len(l.Errors) == old(len(l.Errors)) ==> err == nil
+func lemma_division_accepted_executes(l *Linter, op *ast.Operator, left, right value.Value) (err error) {
+	l.lintArithmeticOperator(op, verifLintType(left), verifLintType(right), right.IsLiteral())
+	err = assign.Division(left, right)
+	return
+}
+
+// @ lemma lemma_remainder_accepted_executes [C05]
+// @   requires noIgnores(l) && op != nil && op.Meta != nil && assignable(left) && simValue(right) && op.Operator == "%="
+// @   requires !(is(right, *value.Integer) && right.(*value.Integer).Value == 0) && !(is(right, *value.Float) && isZero(right.(*value.Float).Value)) && !(is(right, *value.RTime) && right.(*value.RTime).Value == 0) && !((is(left, *value.Integer) || is(left, *value.RTime)) && is(right, *value.Float) && int64(right.(*value.Float).Value) == 0)
+// @   requires !(is(left, *value.RTime) && is(right, *value.Integer) && right.(*value.Integer).Value * 1000000000 == 0) && !(is(left, *value.RTime) && is(right, *value.Float) && int64(right.(*value.Float).Value) * 1000000000 == 0)
+// @   requires !(is(right, *value.Float) && int64(right.(*value.Float).Value) == 0)
+// @   inline-calls
+// @   paths 20000
+// @   ensures [accepted-remainder-executes] len(l.Errors) == old(len(l.Errors)) ==> err == nil
+func lemma_remainder_accepted_executes(l *Linter, op *ast.Operator, left, right value.Value) (err error) {
+	l.lintArithmeticOperator(op, verifLintType(left), verifLintType(right), right.IsLiteral())
+	err = assign.Remainder(left, right)
+	return
+}
+
+// `|=`, `&=`, `^=`, `<<=`, `>>=`, `rol=`, `ror=`: the bitwise table against the seven bitwise assignments.
+// @ lemma lemma_bitwise_or_accepted_executes [C05]
+// @   requires noIgnores(l) && op != nil && op.Meta != nil && assignable(left) && simValue(right) && op.Operator == "|="
+// @   inline-calls
+// @   paths 20000
+// @   ensures [accepted-bitwise_or-executes] len(l.Errors) == old(len(l.Errors)) ==> err == nil
+func lemma_bitwise_or_accepted_executes(l *Linter, op *ast.Operator, left, right value.Value) (err error) {
+	l.lintBitwiseOperator(op, verifLintType(left), verifLintType(right))
+	err = assign.BitwiseOR(left, right)
+	return
+}
+
+// @ lemma lemma_bitwise_and_accepted_executes [C05]
+// @   requires noIgnores(l) && op != nil && op.Meta != nil && assignable(left) && simValue(right) && op.Operator == "&="
+// @   inline-calls
+// @   paths 20000
+// @   ensures [accepted-bitwise_and-executes] len(l.Errors) == old(len(l.Errors)) ==> err == nil
+func lemma_bitwise_and_accepted_executes(l *Linter, op *ast.Operator, left, right value.Value) (err error) {
+	l.lintBitwiseOperator(op, verifLintType(left), verifLintType(right))
+	err = assign.BitwiseAND(left, right)
+	return
+}
+
+// @ lemma lemma_bitwise_xor_accepted_executes [C05]
+// @   requires noIgnores(l) && op != nil && op.Meta != nil && assignable(left) && simValue(right) && op.Operator == "^="
+// @   inline-calls
+// @   paths 20000
+// @   ensures [accepted-bitwise_xor-executes] len(l.Errors) == old(len(l.Errors)) ==> err == nil
+func lemma_bitwise_xor_accepted_executes(l *Linter, op *ast.Operator, left, right value.Value) (err error) {
+	l.lintBitwiseOperator(op, verifLintType(left), verifLintType(right))
+	err = assign.BitwiseXOR(left, right)
+	return
+}
+
+// @ lemma lemma_left_shift_accepted_executes [C05]
+// @   requires noIgnores(l) && op != nil && op.Meta != nil && assignable(left) && simValue(right) && op.Operator == "<<="
+// @   requires !(is(right, *value.Integer) && right.(*value.Integer).Value < 0)
+// @   inline-calls
+// @   paths 20000
+// @   ensures [accepted-left_shift-executes] len(l.Errors) == old(len(l.Errors)) ==> err == nil
+func lemma_left_shift_accepted_executes(l *Linter, op *ast.Operator, left, right value.Value) (err error) {
+	l.lintBitwiseOperator(op, verifLintType(left), verifLintType(right))
+	err = assign.LeftShift(left, right)
+	return
+}
+
+// @ lemma lemma_right_shift_accepted_executes [C05]
+// @   requires noIgnores(l) && op != nil && op.Meta != nil && assignable(left) && simValue(right) && op.Operator == ">>="
+// @   requires !(is(right, *value.Integer) && right.(*value.Integer).Value < 0)
+// @   inline-calls
+// @   paths 20000
+// @   ensures [accepted-right_shift-executes] len(l.Errors) == old(len(l.Errors)) ==> err == nil
+func lemma_right_shift_accepted_executes(l *Linter, op *ast.Operator, left, right value.Value) (err error) {
+	l.lintBitwiseOperator(op, verifLintType(left), verifLintType(right))
+	err = assign.RightShift(left, right)
+	return
+}
+
+// @ lemma lemma_left_rotate_accepted_executes [C05]
+// @   requires noIgnores(l) && op != nil && op.Meta != nil && assignable(left) && simValue(right) && op.Operator == "rol="
+// @   inline-calls
+// @   paths 20000
+// @   ensures [accepted-left_rotate-executes] len(l.Errors) == old(len(l.Errors)) ==> err == nil
+func lemma_left_rotate_accepted_executes(l *Linter, op *ast.Operator, left, right value.Value) (err error) {
+	l.lintBitwiseOperator(op, verifLintType(left), verifLintType(right))
+	err = assign.LeftRotate(left, right)
+	return
+}
+
+// @ lemma lemma_right_rotate_accepted_executes [C05]
+// @   requires noIgnores(l) && op != nil && op.Meta != nil && assignable(left) && simValue(right) && op.Operator == "ror="
+// @   inline-calls
+// @   paths 20000
+// @   ensures [accepted-right_rotate-executes] len(l.Errors) == old(len(l.Errors)) ==> err == nil
+func lemma_right_rotate_accepted_executes(l *Linter, op *ast.Operator, left, right value.Value) (err error) {
+	l.lintBitwiseOperator(op, verifLintType(left), verifLintType(right))
+	err = assign.RightRotate(left, right)
+	return
+}
+
+// `||=`, `&&=`: the logical table against LogicalOR / LogicalAND.
+// @ lemma lemma_logical_or_accepted_executes [C05]
+// @   requires noIgnores(l) && op != nil && op.Meta != nil && assignable(left) && simValue(right) && op.Operator == "||="
+// @   inline-calls
+// @   paths 20000
+// @   ensures [accepted-logical_or-executes] len(l.Errors) == old(len(l.Errors)) ==> err == nil
+func lemma_logical_or_accepted_executes(l *Linter, op *ast.Operator, left, right value.Value) (err error) {
+	l.lintLogicalOperator(op, verifLintType(left), verifLintType(right))
+	err = assign.LogicalOR(left, right)
+	return
+}
+
+// @ lemma lemma_logical_and_accepted_executes [C05]
+// @   requires noIgnores(l) && op != nil && op.Meta != nil && assignable(left) && simValue(right) && op.Operator == "&&="
+// @   inline-calls
+// @   paths 20000
+// @   ensures [accepted-logical_and-executes] len(l.Errors) == old(len(l.Errors)) ==> err == nil
+func lemma_logical_and_accepted_executes(l *Linter, op *ast.Operator, left, right value.Value) (err error) {
+	l.lintLogicalOperator(op, verifLintType(left), verifLintType(right))
+	err = assign.LogicalAND(left, right)
+	return
+}
